@@ -1,2 +1,5 @@
 pub mod checks;
 pub mod common;
+pub mod plan;
+pub mod model;
+pub mod node;
